@@ -419,7 +419,9 @@ func (x *Exec) mapDelete(st *State, t types.Type, m *Term, k *Value) {
 	had := x.mapHas(st, t, m, k)
 	pk := "MP:" + mi.key
 	parr := x.heapArr(st, pk, ArraySort(RefSort, curried(mi.kLeaves, BoolSort)))
-	st.heap[pk] = storeN(parr, append([]*Term{m}, ks...), False)
+	// delete on a nil map is a no-op: nothing is written at the null reference
+	idx := append([]*Term{m}, ks...)
+	st.heap[pk] = storeN(parr, idx, Ite(Eq(m, x.null()), selectN(parr, idx), False))
 	x.noteWrite(pk, m)
 	lk := "ML:" + mi.key
 	larr := x.heapArr(st, lk, ArraySort(RefSort, IntSort))
